@@ -18,6 +18,7 @@ import (
 	perunioser "perun.network/go-perun/wire/perunio/serializer"
 	"verif/harness/internal/cv"
 	"verif/harness/internal/hx"
+	"verif/harness/internal/protoc"
 )
 
 // A Kind is one decodable wire type.
@@ -323,6 +324,7 @@ func RunC14(seed int64, tier, out string) {
 	}
 	w.flush()
 	res.Rule = "well-formed values of every wire type (12 value decoders, all 17 message types, envelopes): Go encoding compared with the model encoder, Go decoding of encoding+trailing bytes compared with the model decoder; streams of 2-5 envelopes; distinct by (type, size class, outcome)"
+	protoc.RunC14(seed, tier, out, w.total, res)
 	res.Write(out)
 }
 
@@ -461,5 +463,6 @@ func RunC13(seed int64, tier, out string) {
 	}
 	w.flush()
 	res.Rule = "malformed inputs for each of the 12 decoders: random bytes, truncations, bit flips, overwrites of every offset with boundary patterns (0, 1, 0xff, 0x7fff, 0xffff, 1024, 1025, negative and huge int32); outcome class ok(value, unread)/err/panic compared with the model; distinct by (decoder, mutation class, outcome, size class); random-bytes cases counted as trivial"
+	protoc.RunC13(seed, tier, out, w.total, res)
 	res.Write(out)
 }
